@@ -528,8 +528,12 @@ func (e *env) chanOp(comm ast.Stmt) (guard string, move string) {
 		if f, ok := e.recvField(c.Chan); ok {
 			if capF, isChan := e.f.chans[f]; isChan {
 				e.useField(f)
-				e.useField(capF)
-				return fmt.Sprintf("(decide (%s.%s < %s.%s))", e.rname, leanIdent(f), e.rname, leanIdent(capF)),
+				capS := capF // a literal capacity (`make(chan T, 1)`), or the field that holds it
+				if strings.Trim(capF, "0123456789") != "" {
+					e.useField(capF)
+					capS = e.rname + "." + leanIdent(capF)
+				}
+				return fmt.Sprintf("(decide (%s.%s < %s))", e.rname, leanIdent(f), capS),
 					fmt.Sprintf("let %s := { %s with %s := %s.%s + 1 }", e.rname, e.rname, leanIdent(f), e.rname, leanIdent(f))
 			}
 		}
@@ -1618,6 +1622,7 @@ func transAll(v1, v2 *pkg) string {
 		{file: "batcher.go", recv: "Batcher", name: "NeedsCapacity", lean: "v1_NeedsCapacity"},
 		{file: "batcher.go", recv: "Batcher", name: "Start", lean: "v1_capacityArm", sliceAt: "if r.ratelimiter != nil {", sliceHas: "r.NeedsCapacity()", sliceN: 1, sliceOut: []string{"giveMeCalled", "giveMeArg"},
 			inputs: map[string]string{"r.ratelimiter != nil": "limited:bool"}, captureCalls: map[string]string{"r.ratelimiter.GiveMe": "giveMe"}},
+		{file: "batcher.go", recv: "Batcher", name: "Pause", lean: "v1_Pause", view: "_pz", chanCap: map[string]string{"pause": "1"}},
 		{file: "batcher.go", recv: "Batcher", name: "resume", lean: "v1_resume", view: "_ph"},
 		{file: "batcher.go", recv: "Batcher", name: "Start", lean: "v1_pauseArm", view: "_ph", sliceAt: "r.emit(PauseEvent", sliceN: 4, sliceOut: []string{"sleepCalled", "sleepArg"},
 			inputs: map[string]string{"r.pauseTime": "pauseTime:int"}, captureCalls: map[string]string{"time.Sleep": "sleep"}},
@@ -1655,6 +1660,7 @@ func transAll(v1, v2 *pkg) string {
 		{file: "batcher.go", recv: "batcher", name: "releaseBatchSlot", lean: "v2_releaseBatchSlot", view: "_slots", chanCap: map[string]string{"inflight": "maxConcurrentBatches"}},
 		{file: "batcher.go", recv: "batcher", name: "confirmInflightIsZero", lean: "v2_confirmInflightIsZero", view: "_slots", chanCap: map[string]string{"inflight": "maxConcurrentBatches"}},
 		{file: "batcher.go", recv: "batcher", name: "Inflight", lean: "v2_Inflight", view: "_slots", chanCap: map[string]string{"inflight": "maxConcurrentBatches"}},
+		{file: "batcher.go", recv: "batcher", name: "Pause", lean: "v2_Pause", view: "_pz", chanCap: map[string]string{"pause": "1"}},
 		{file: "batcher.go", recv: "batcher", name: "resume", lean: "v2_resume", view: "_ph"},
 		{file: "batcher.go", recv: "batcher", name: "Start", lean: "v2_pauseArm", view: "_ph", sliceAt: "r.Emit(PauseEvent", sliceN: 4, sliceOut: []string{"sleepCalled", "sleepArg"},
 			inputs: map[string]string{"r.pauseTime": "pauseTime:int"}, captureCalls: map[string]string{"time.Sleep": "sleep"}},
